@@ -80,6 +80,10 @@ def runReduceOp (op : String) (attrs : Json) (ins : List (Option DT)) : Answer :
           | none => { domain := "mayRefuse" },
         guard := if sp.isNone then ["argmax.axis_out_of_range"]
                  else (if !keep && X.t.rank == 1 then ["argmax.rank1_no_keepdims"] else []) }
+  | "ReduceMax", [some ⟨_, _, some _⟩] | "ReduceMin", [some ⟨_, _, some _⟩] =>
+    -- values carried bit for bit (NaN, infinities): how NaN ranks in a reduction is not specified by C09; only the
+    -- purity of the operator is judged on these (C02)
+    { model := { status := "unmodelled" }, spec := { domain := "unspecified", pure := true }, tags := ["float-bits"] }
   | "ReduceMax", [some X] | "ReduceMin", [some X] =>
     let names := attrNames attrs
     let isMax := op == "ReduceMax"
